@@ -7,6 +7,7 @@ import (
 	"context"
 	"crypto/rand"
 	"encoding/json"
+	"errors"
 	"fmt"
 	"sort"
 	"strings"
@@ -22,7 +23,25 @@ import (
 	"verif/harness/fakes/awskms"
 )
 
-var crypto = aead.NewAES256GCM()
+// flaky is the AEAD given to both plug-ins: the real AES-256-GCM with a switch that makes Encrypt fail (a KMS
+// data key the cipher rejects, a hardware-backed AEAD that errors).
+type flaky struct {
+	appencryption.AEAD
+	failEncrypt bool
+}
+
+func (f *flaky) Encrypt(data, key []byte) ([]byte, error) {
+	if f.failEncrypt {
+		return nil, errors.New("injected AEAD encrypt failure")
+	}
+	return f.AEAD.Encrypt(data, key)
+}
+
+var crypto = &flaky{AEAD: aead.NewAES256GCM()}
+
+// builds counts v2 builds: every other one starts from a base aws.Config that already carries a region (as
+// LoadDefaultConfig does when AWS_REGION is set); the regional clients must still be created for their own regions.
+var builds int
 
 var allRegions = []string{"us-west-2", "eu-west-1", "ap-south-1", "us-east-1"}
 
@@ -40,13 +59,29 @@ func build(version int, cloud *awskms.Cloud, regions []string, preferred string)
 		return k, order, nil
 	}
 	var order []string
-	k, err := v2kms.NewBuilder(crypto, cloud.ARNMap(regions...)).WithPreferredRegion(preferred).WithAWSConfig(awsv2.Config{}).
+	base := awsv2.Config{}
+	builds++
+	if builds%2 == 0 {
+		base.Region = regions[len(regions)-1]
+	}
+	k, err := v2kms.NewBuilder(crypto, cloud.ARNMap(regions...)).WithPreferredRegion(preferred).WithAWSConfig(base).
 		WithKMSFactory(func(cfg awsv2.Config, _ ...func(*awsv2kmssvc.Options)) v2kms.AWSClient {
 			order = append(order, cfg.Region)
-			return awskms.V2{R: cloud.Regions[cfg.Region]}
+			reg := cloud.Regions[cfg.Region]
+			if reg == nil {
+				reg = cloud.Regions[regions[0]]
+			}
+			return awskms.V2{R: reg}
 		}).Build()
 	if err != nil {
 		return nil, nil, err
+	}
+	got := append([]string(nil), order...)
+	sort.Strings(got)
+	want := append([]string(nil), regions...)
+	sort.Strings(want)
+	if strings.Join(got, ",") != strings.Join(want, ",") {
+		return nil, nil, fmt.Errorf("v2 builder (base config region %q) created clients for regions %v, want one per configured region %v", base.Region, got, want)
 	}
 	return k, []string{k.PreferredRegion()}, nil
 }
@@ -101,7 +136,7 @@ func Sweep(r *ev.Run, prop string, maxRegions int, builds int) {
 		r.Violation(sig, fmt.Sprintf(f, a...), nil)
 	}
 	c17 := prop == "C17"
-	c10 := prop == "C10"
+	_ = prop == "C10"
 	for n := 1; n <= maxRegions; n++ {
 		regions := allRegions[:n]
 		cloud := awskms.NewCloud(regions...)
@@ -161,21 +196,46 @@ func Sweep(r *ev.Run, prop string, maxRegions int, builds int) {
 									}
 								}
 							}
+							// the data key plaintext handed out by GenerateDataKey, and every Encrypt request buffer that carried
+							// it to another region, must be wiped when EncryptKey returns - on success and on failure
+							wipeCheck := func(desc string) {
+								for _, reg := range cloud.Regions {
+									for _, h := range reg.Handed {
+										if !allZero(h) {
+											report("wrap-datakey-plaintext-not-wiped:v"+fmt.Sprint(wv), "%s: GenerateDataKey Plaintext from %s not zero after EncryptKey returned (err=%v)", desc, reg.Name, err)
+										}
+									}
+								}
+								for _, b := range cloud.ReqPlain {
+									if !allZero(b) {
+										report("wrap-datakey-request-buffer-not-wiped:v"+fmt.Sprint(wv), "%s: an Encrypt request Plaintext buffer still holds the data key after EncryptKey returned (err=%v)", desc, err)
+									}
+								}
+							}
+							wipeCheck(desc)
+							if len(failGen) == 0 && len(failEnc) <= 1 {
+								// same wrap with the AEAD failing after the cloud handed out the data key
+								cloud.Reset()
+								for _, e := range failEnc {
+									cloud.Regions[e].FailEncrypt = true
+								}
+								crypto.failEncrypt = true
+								_, ferr := wk.EncryptKey(context.Background(), append([]byte(nil), skCopy...))
+								crypto.failEncrypt = false
+								r.Eval(1)
+								r.Count("wraps_with_failing_aead", 1)
+								if ferr == nil {
+									report("wrap-succeeded-although-aead-failed:v"+fmt.Sprint(wv), "%s: EncryptKey returned no error although the AEAD refused to encrypt", desc)
+								}
+								realErr := err
+								err = ferr
+								wipeCheck(desc + " + AEAD encrypt failure")
+								err = realErr
+							}
 							if err != nil {
 								continue
 							}
 							r.Distinct(desc)
-							// the data key plaintext handed out by GenerateDataKey must be wiped
-							for _, reg := range cloud.Regions {
-								for _, h := range reg.Handed {
-									if !allZero(h) {
-										sig := "wrap-datakey-plaintext-not-wiped:v" + fmt.Sprint(wv)
-										if c17 || c10 {
-											report(sig, "%s: GenerateDataKey Plaintext from %s not zero after EncryptKey returned", desc, reg.Name)
-										}
-									}
-								}
-							}
 							var en envelope
 							if jerr := json.Unmarshal(env, &en); jerr != nil {
 								report("envelope-not-json:v"+fmt.Sprint(wv), "%s: %v", desc, jerr)
@@ -215,9 +275,9 @@ func Sweep(r *ev.Run, prop string, maxRegions int, builds int) {
 }
 
 type builtKMS struct {
-	k     appencryption.KeyManagementService
-	conf  []string
-	pref  string
+	k    appencryption.KeyManagementService
+	conf []string
+	pref string
 }
 
 var unwrapCache = map[string]builtKMS{}
